@@ -156,12 +156,12 @@ func c05GenOptions(rt *rapid.T, f *c05Fld) {
 	}
 	wantDef := presence == "default" || presence == "both"
 	if !c05IsScalar(k) {
-		if wantDef && k == "slice" && c05IsScalar(f.T.E.K) && !f.T.E.P && rapid.IntRange(0, 2).Draw(rt, "slicedef") == 0 {
+		if wantDef && k == "slice" && c05IsScalar(f.T.E.K) && !f.T.E.P && rapid.IntRange(0, 3).Draw(rt, "slicedef") != 0 {
 			var d string
 			if f.T.E.K == "string" {
-				d = "[x,y]"
+				d = c05Pick(rt, "sdefs", []string{"[x,y]", "[a]", "[dev, prod,test]"})
 			} else if c05IsNumeric(f.T.E.K) {
-				d = "[1,2]"
+				d = c05Pick(rt, "sdefn", []string{"[1,2]", "[7]", "[0,100,3]"})
 			}
 			if d != "" {
 				f.Def = &d
@@ -328,11 +328,13 @@ func c05InsideRange(rt *rapid.T, rg *c05Rng, lo, hi int, isF bool) string {
 // ---------------- documents ----------------
 
 type c05DocGen struct {
-	rt      *rapid.T
-	plain   bool // only plain (must-be-accepted) content
-	p5      bool // request values: a field is absent only when optional and unconstrained
-	focus   bool // one field of the object is hostile (boundary / ill-typed / absent ...), the rest is plain:
-	// a must-fail value is only observable as a wrong acceptance when everything else is acceptable
+	rt    *rapid.T
+	plain bool // only plain (must-be-accepted) content
+	p5    bool // request values: a field is absent only when optional and unconstrained
+	// focus: one field of the object is hostile (boundary / ill-typed / absent ...), the rest is
+	// plain: a must-fail value is only observable as a wrong acceptance when everything else is acceptable
+	focus   bool
+	focused bool // the field being generated is the hostile one
 	hostile int  // percentage of nested elements replaced by an arbitrary value
 }
 
@@ -381,6 +383,17 @@ func (g *c05DocGen) any(depth int) c05JV {
 
 // illTyped: a value of a JSON type the kind does not take.
 func (g *c05DocGen) illTyped(t *c05Typ, f *c05Fld) c05JV {
+	if (t.K == "slice" || t.K == "map") && rapid.IntRange(0, 2).Draw(g.rt, "jsoninstring") == 0 {
+		// the code parses a string as JSON text for slice and map fields
+		sp, sf := g.plain, g.focus
+		g.plain, g.focus = rapid.Bool().Draw(g.rt, "jisplain"), false
+		v := g.plainValue(t, nil, 1)
+		g.plain, g.focus = sp, sf
+		if rapid.IntRange(0, 5).Draw(g.rt, "jisnull") == 0 {
+			return c05Str("null")
+		}
+		return c05Str(v.JSON())
+	}
 	for i := 0; i < 8; i++ {
 		v := g.any(1)
 		switch {
@@ -523,32 +536,36 @@ func (g *c05DocGen) boundary(t *c05Typ, f *c05Fld) c05JV {
 				"1.8e308", "1e400", "-1e400", "1e-400", "5e-324", "1e-46", "0.1", "16777217", "9007199254740993",
 				"0", "-0", "0.0", "1E2", "123456789012345678901234567890")
 		}
+		var cc []string // candidates derived from the field's own constraint
 		if f != nil && f.Rng != nil {
 			for _, b := range []string{f.Rng.L, f.Rng.R} {
 				if b == "" {
 					continue
 				}
-				c = append(c, b, b, b)
+				cc = append(cc, b, b, b)
 				if r, ok := new(big.Rat).SetString(b); ok {
 					up := new(big.Rat).Add(r, big.NewRat(1, 1))
 					dn := new(big.Rat).Sub(r, big.NewRat(1, 1))
-					c = append(c, up.FloatString(c05Dec(up)), dn.FloatString(c05Dec(dn)))
+					cc = append(cc, up.FloatString(c05Dec(up)), dn.FloatString(c05Dec(dn)))
 					if c05IsFloat(t.K) {
 						uph := new(big.Rat).Add(r, big.NewRat(1, 4))
 						dnh := new(big.Rat).Sub(r, big.NewRat(1, 4))
-						c = append(c, uph.FloatString(c05Dec(uph)), dnh.FloatString(c05Dec(dnh)))
+						cc = append(cc, uph.FloatString(c05Dec(uph)), dnh.FloatString(c05Dec(dnh)))
 					}
 				}
 			}
 		}
 		if f != nil && len(f.Opts) > 0 {
 			for _, op := range f.Opts {
-				c = append(c, op, op+"0", op+".0")
+				cc = append(cc, op, op+"0", op+".0")
 				if r, ok := new(big.Rat).SetString(op); ok {
 					up := new(big.Rat).Add(r, big.NewRat(1, 1))
-					c = append(c, up.FloatString(c05Dec(up)))
+					cc = append(cc, up.FloatString(c05Dec(up)))
 				}
 			}
+		}
+		if len(cc) > 0 && rapid.IntRange(0, 9).Draw(rt, "bndcons") < 6 {
+			return g.wrapStr(f, c05Num(c05Pick(rt, "bndc", cc)))
 		}
 		return g.wrapStr(f, c05Num(c05Pick(rt, "bnd", c)))
 	case t.K == "string":
@@ -574,6 +591,24 @@ func c05Dec(r *big.Rat) int {
 
 // elem: an element of a slice or map.
 func (g *c05DocGen) elem(t *c05Typ, depth int) c05JV {
+	if !g.plain && g.focus && (t.K != "struct") {
+		// focus inside a collection: about one element in three is hostile
+		if rapid.IntRange(0, 2).Draw(g.rt, "focuselem") != 0 {
+			sp := g.plain
+			g.plain = true
+			v := g.plainValue(t, nil, depth)
+			g.plain = sp
+			return v
+		}
+		switch x := rapid.IntRange(0, 9).Draw(g.rt, "focuselemkind"); {
+		case x < 5 && (c05IsNumeric(t.K) || t.K == "string"):
+			return g.boundary(t, nil)
+		case x < 8:
+			return g.any(1)
+		default:
+			return c05Null()
+		}
+	}
 	if !g.plain {
 		x := rapid.IntRange(0, 99).Draw(g.rt, "elemkind")
 		switch {
@@ -599,84 +634,99 @@ func (g *c05DocGen) object(fs []c05Fld, depth int) c05JV {
 }
 
 func (g *c05DocGen) members(fs []c05Fld, depth int, m *[]c05KV) {
-	rt := g.rt
-	if g.focus {
-		// exactly one field of this object gets the hostile treatment
-		target := rapid.IntRange(0, len(fs)-1).Draw(rt, "focus")
-		g.focus = false
+	if g.focus && !g.plain {
+		// exactly one field of this object gets the hostile treatment, the others are plain
+		target := rapid.IntRange(0, len(fs)-1).Draw(g.rt, "focus")
 		for i := range fs {
-			g.plain = i != target
-			g.focused = i == target
-			g.members(fs[i:i+1:i+1], depth, m, i)
+			g.plain, g.focus, g.focused = i != target, false, i == target
+			g.member(&fs[i], i, depth, m)
 		}
-		g.plain, g.focused, g.focus = false, false, true
+		g.plain, g.focus, g.focused = false, true, false
 		return
 	}
-	g.membersAt(fs, depth, m, 0)
+	for i := range fs {
+		g.member(&fs[i], i, depth, m)
+	}
 }
 
-func (g *c05DocGen) membersAt(fs []c05Fld, depth int, m *[]c05KV, base int) {
+func (g *c05DocGen) member(f *c05Fld, i, depth int, m *[]c05KV) {
 	rt := g.rt
-	for i := range fs {
-		f := &fs[i]
-		switch {
-		case f.Tag == "-other":
-			if !g.plain && rapid.Bool().Draw(rt, "otherpresent") {
-				*m = append(*m, c05KV{K: f.goName(i), V: g.any(1)})
-			}
-			continue
-		case f.Anon:
-			if f.Opt && rapid.IntRange(0, 2).Draw(rt, "emballabsent") == 0 {
-				continue
-			}
-			if !g.plain && rapid.IntRange(0, 29).Draw(rt, "embwrap") == 0 {
-				*m = append(*m, c05KV{K: f.goName(i), V: g.object(f.T.F, depth+1)})
-				continue
-			}
+	switch {
+	case f.Tag == "-other":
+		if !g.plain && rapid.Bool().Draw(rt, "otherpresent") {
+			*m = append(*m, c05KV{K: f.goName(i), V: g.any(1)})
+		}
+		return
+	case f.Anon:
+		if f.Opt && rapid.IntRange(0, 2).Draw(rt, "emballabsent") == 0 {
+			return
+		}
+		if !g.plain && rapid.IntRange(0, 29).Draw(rt, "embwrap") == 0 {
+			*m = append(*m, c05KV{K: f.goName(i), V: g.object(f.T.F, depth+1)})
+			return
+		}
+		if g.focused {
+			// the hostile field is one of the embedded struct's children
+			g.plain, g.focus, g.focused = false, true, false
 			g.members(f.T.F, depth, m)
-			continue
+			g.plain, g.focus, g.focused = false, false, true
+			return
 		}
-		key := f.key(i)
-		mayBeAbsent := f.Opt || f.Def != nil
-		var names []string
-		var weights []int
-		if g.plain {
-			names, weights = []string{"plain", "absent"}, []int{75, 25}
-			if !mayBeAbsent {
-				weights[1] = 0
-			}
-			if f.T.K == "map" && !f.Opt || f.T.K == "struct" && !f.Opt || (f.T.K == "slice" && f.Def != nil) {
-				weights[1] = 0
-			}
-			if g.p5 && (!f.Opt || f.Def != nil || len(f.Opts) > 0 || f.Rng != nil || (f.T.K == "struct" && !f.T.P)) {
-				weights[1] = 0
-			}
-		} else {
-			names = []string{"plain", "absent", "boundary", "illtyped", "null", "dup", "any"}
-			weights = []int{46, 12, 22, 9, 4, 2, 5}
-			if mayBeAbsent {
-				weights[1] = 24
-			}
-			if !(c05IsNumeric(f.T.K) || f.T.K == "string" || f.T.K == "dur") {
-				weights[0] += weights[2]
-				weights[2] = 0
+		g.members(f.T.F, depth, m)
+		return
+	}
+	key := f.key(i)
+	mayBeAbsent := f.Opt || f.Def != nil
+	var names []string
+	var weights []int
+	switch {
+	case g.plain:
+		names, weights = []string{"plain", "absent"}, []int{75, 25}
+		if !mayBeAbsent {
+			weights[1] = 0
+		}
+		if f.T.K == "map" && !f.Opt || f.T.K == "struct" && !f.Opt {
+			weights[1] = 0
+		}
+		if g.p5 && (!f.Opt || f.Def != nil || len(f.Opts) > 0 || f.Rng != nil || (f.T.K == "struct" && !f.T.P)) {
+			weights[1] = 0
+		}
+	default:
+		names = []string{"plain", "absent", "boundary", "illtyped", "null", "dup", "any", "inner"}
+		weights = []int{46, 12, 22, 9, 4, 2, 5, 0}
+		if g.focused {
+			weights = []int{5, 15, 45, 16, 5, 3, 6, 0}
+			if f.T.K == "struct" || f.T.K == "slice" || f.T.K == "map" {
+				weights[7] = 40 // keep the composite well-formed, make one thing inside it hostile
 			}
 		}
-		switch c05W(rt, "disp", names, weights) {
-		case "absent":
-		case "plain":
-			*m = append(*m, c05KV{K: key, V: g.plainValue(&f.T, f, depth)})
-		case "boundary":
-			*m = append(*m, c05KV{K: key, V: g.boundary(&f.T, f)})
-		case "illtyped":
-			*m = append(*m, c05KV{K: key, V: g.illTyped(&f.T, f)})
-		case "null":
-			*m = append(*m, c05KV{K: key, V: c05Null()})
-		case "dup":
-			*m = append(*m, c05KV{K: key, V: g.plainValue(&f.T, f, depth)}, c05KV{K: key, V: g.boundary(&f.T, f)})
-		case "any":
-			*m = append(*m, c05KV{K: key, V: g.any(0)})
+		if mayBeAbsent && !g.focused {
+			weights[1] = 24
 		}
+		if !(c05IsNumeric(f.T.K) || f.T.K == "string" || f.T.K == "dur") {
+			weights[0] += weights[2]
+			weights[2] = 0
+		}
+	}
+	switch c05W(rt, "disp", names, weights) {
+	case "absent":
+	case "plain":
+		*m = append(*m, c05KV{K: key, V: g.plainValue(&f.T, f, depth)})
+	case "inner":
+		sp, sf, sd := g.plain, g.focus, g.focused
+		g.plain, g.focus, g.focused = false, true, false
+		*m = append(*m, c05KV{K: key, V: g.plainValue(&f.T, f, depth)})
+		g.plain, g.focus, g.focused = sp, sf, sd
+	case "boundary":
+		*m = append(*m, c05KV{K: key, V: g.boundary(&f.T, f)})
+	case "illtyped":
+		*m = append(*m, c05KV{K: key, V: g.illTyped(&f.T, f)})
+	case "null":
+		*m = append(*m, c05KV{K: key, V: c05Null()})
+	case "dup":
+		*m = append(*m, c05KV{K: key, V: g.plainValue(&f.T, f, depth)}, c05KV{K: key, V: g.boundary(&f.T, f)})
+	case "any":
+		*m = append(*m, c05KV{K: key, V: g.any(0)})
 	}
 }
 
@@ -700,8 +750,8 @@ func c05GenCase(rt *rapid.T) c05Case {
 	cfg := &c05GenCfg{tag: tag, keyStyles: c05AllStyles, maxDepth: 3}
 	c := c05Case{EP: ep}
 	c.S = c05GenFields(rt, cfg, 1, 6, "")
-	mode := c05W(rt, "docmode", []string{"mixed", "plain", "hostile"}, []int{60, 25, 15})
-	g := &c05DocGen{rt: rt, plain: mode == "plain", hostile: 6}
+	mode := c05W(rt, "docmode", []string{"mixed", "plain", "hostile", "focus"}, []int{25, 20, 10, 45})
+	g := &c05DocGen{rt: rt, plain: mode == "plain", hostile: 6, focus: mode == "focus"}
 	if mode == "hostile" {
 		g.hostile = 30
 	}
